@@ -236,6 +236,34 @@ func runC14(c *Ctx) {
 	}
 	c.MinInstances("C14.R7 ID-index writes", nIdx, 2)
 
+	// ---- R10b promotion extends the run that is there *now*. reorg verifies the candidates
+	// without the pool lock; a processable transaction removed (block applied, replacement)
+	// in the meantime must make the promotion fail, or the processable set gets a hole:
+	// inside Promote, under the list's lock, the first promoted nonce is compared with the
+	// current last processable nonce (or the set is empty).
+	if promote != nil {
+		pf := factsOf(promote)
+		np := 0
+		for _, st := range storesToField(promote, "txpool.addressTransactions", "processables") {
+			np++
+			ok := pf.EveryPathHas(st.Block(), func(f Fact) bool {
+				if !f.IsCmp {
+					return false
+				}
+				s := f.String()
+				if strings.Contains(s, "p0.processables[") && (f.Op == token.EQL) {
+					return true // continuity with an element of the current run
+				}
+				// … or there is no current run, or nothing is promoted
+				return f.Entails(CmpSpec{A: Matcher{"len(…)", func(t *Term) bool {
+					return t.Op == "call" && t.Sym == "builtin:len"
+				}}, NoB: true, Rel: LE, D: 0})
+			})
+			c.Require("C14.R10 promote-extends-the-current-run", FuncKey(promote)+": processables =", p.InstrPos(st), "the promoted nonces are appended only where the first of them was compared with the current end of the processable run (or the run is empty)", ok, "")
+		}
+		c.MinInstances("C14.R10 promote-extends-the-current-run", np, 1)
+	}
+
 	// ---- R9b an eviction declines only for want of candidates. Add inserts after the eviction
 	// step whatever it answered (a full pool always has a candidate, so it cannot fail); an
 	// eviction that may also decline for another reason (the candidate pays more than the
